@@ -378,13 +378,11 @@ func parsePtr(ptr string, forStruct bool) string {
 		}
 		return fmt.Sprintf("Some (%s, %s)", hc.N(nameN(parts[0])), hc.N(nameN(parts[1])))
 	}
-	switch len(parts) {
-	case 1:
-		return fmt.Sprintf("Some (TKey %s)", hc.N(nameN(parts[0])))
-	case 2:
-		return fmt.Sprintf("Some (TNested %s %s)", hc.N(nameN(parts[0])), hc.N(nameN(parts[1])))
+	ns := make([]int, len(parts))
+	for i, p := range parts {
+		ns[i] = nameN(p)
 	}
-	return "None"
+	return "Some (TPath " + hc.NList(ns) + ")"
 }
 
 func tagsLit(ts []PTag, forStruct bool) string {
